@@ -358,7 +358,7 @@ verif_harness! {
     stubs: [(crate::compact_soft::backends::lsx, stub_lsx), (crate::compact_soft::backends::lsx_inv, stub_lsx_inv)],
     prop: |inp| { k::w_roundtrip_rk(inp, 0, false) }
 }
-//@ harness name=kuz_compact_rt_ed prop=C01,C20 tier=quick bits=1408 stub=1 est=40 desc="W: Kuznyechik::from(&enc): dec(enc(b)) == b, arbitrary round keys, all blocks (S, L uninterpreted inverse pairs)"
+//@ harness name=kuz_compact_rt_ed prop=C01,C20 tier=quick bits=1408 stub=1 est=50 desc="W: Kuznyechik::from(&enc): dec(enc(b)) == b, arbitrary round keys, all blocks (S, L uninterpreted inverse pairs)"
 verif_harness! {
     name: kuz_compact_rt_ed,
     bytes: 160 + 16,
